@@ -149,7 +149,8 @@ def _rest(run: Run, prog: Program, model: Model, tier: str) -> None:
                         continue
                     if not (isinstance(tv, TupleV) and len(tv.items) == 2 and isinstance(tv.items[1], Const) and tv.items[1].value is False):
                         probs.append(f"entry for {k.key()[:30]} is not (schema, required)")
-                    elif "native(" not in tv.items[0].key() and not is_ell(tv.items[0]):
+                    elif "native(" not in tv.items[0].key() and not is_ell(tv.items[0]) and not any(
+                            b and fk == f"isinstance({tv.items[0].key()}, ellipsis)" for fk, _, b in p.facts):
                         probs.append(f"member for {k.key()[:30]} is not derived from the value ({tv.items[0].key()[:40]})")
                 if isinstance(orig, DictV) and any(is_ell(k) for k, _ in orig.pairs()) and tbl.lookup(ELL) is None:
                     probs.append("relaxed marker lost")
